@@ -14,8 +14,9 @@ def _run(w):
     K, P, labels, m = int(n['K']), int(n['P']), [int(x) for x in n['labels']], int(n['m'])
     inp = w.get('inputs') or {}
     spreads = [flt(inp.get('spread_%d' % k, 0)) for k in range(K)]
+    m_given = np.uint8(m) if n.get('m_form') == 'np.uint8' else m
     args = arguments.UserArguments(sparsity_weight=0.1, iteration_limit=3, label_switching_cost=1.0,
-                                   min_cluster_size=m, min_meaningful_covariance=0, num_clusters=K,
+                                   min_cluster_size=m_given, min_meaningful_covariance=0, num_clusters=K,
                                    num_processors=1, window_size=1, biased_covariance=False)
     state = model_state.ModelState.empty_model(args, np.zeros((P, 1)))
     state.point_labels = list(labels)
